@@ -587,10 +587,14 @@ def case_mass(chk, ctx, phi, grids):
     if phi.ndim == 0 or not np.all(np.isfinite(phi)):
         return
     t = phi
-    for ax in range(phi.ndim):                    # always axis 0 of what is left, with the grid of that population
-        t = Num.trapz(t, grids[ax], axis=0)
-    impl = float(t)
     inp = dict(op='mass', grids=[g.tolist() for g in grids], shape=list(phi.shape), phi=phi.ravel().tolist())
+    try:
+        for ax in range(phi.ndim):                    # always axis 0 of what is left, with the grid of that population
+            t = Num.trapz(t, grids[ax], axis=0)
+        impl = float(t)
+    except Exception as e:
+        chk.fail('total_mass:raises:%s' % type(e).__name__, 'Numerics.trapz applied to every axis in turn (each with its own grid) raises %r on a %s density' % (e, 'x'.join(map(str, phi.shape))), inp)
+        return
     ans = driver.ask('c06 mass %s %s' % (fmt_grids(grids), fmt_nd(phi)))
     chk.stat('k:mass')
     if not ans.startswith('ok '):
